@@ -317,7 +317,7 @@ def _scenarios(nex, n_sched):
 def subchecks(tier):
     if tier == "quick":
         return [Sub("scenarios", _scenarios(300, 3), shards=14)]
-    return [Sub("scenarios", _scenarios(4000, 8), shards=16)]
+    return [Sub("scenarios", _scenarios(16000, 8), shards=16)]
 
 
 def replay(case):
